@@ -607,6 +607,14 @@ def Row.Ok (r : Row) : Prop :=
   | none => True
   | some x => x.route < 16777216 ∧ x.key < 4294967296 ∧ x.mask < 4294967296 ∧ x.app < 256 ∧ x.core < 16
 
+/-! ### what the router does with a loaded table (used by the cross-model theorems) -/
+
+/-- a packet key matches an entry when its bits under the mask equal the entry's key -/
+def Entry.matches (e : Entry) (k : Nat) : Bool := k &&& e.mask == e.key
+
+/-- first-match lookup in table order (the router takes the lowest matching row) -/
+def lookup (T : List Entry) (k : Nat) : Option Entry := T.find? (fun e => e.matches k)
+
 /-! ## line protocol -/
 open Lean Rig.P
 
